@@ -159,140 +159,157 @@ func ruleP09Complete(p *Prog, r *Report) {
 	type lineLit struct {
 		st     *ssa.Store
 		leaves []ssa.Value
+		chain  []ssa.CallInstruction
 	}
+	// (a line built in a helper counts once per call of the helper, with the helper's
+	// parameters standing for that call's arguments)
 	var lits []lineLit
-	for _, g := range withAnons(f) {
-		eachInstr(g, func(in ssa.Instruction) {
-			st, ok := in.(*ssa.Store)
-			if !ok {
-				return
-			}
-			fa, ok := st.Addr.(*ssa.FieldAddr)
-			if !ok || typeNameOf(fa.X.Type()) != "Line" || fieldName(fa) != "Text" {
-				return
-			}
-			var leaves []ssa.Value
-			catLeaves(st.Val, &leaves, 0)
-			lits = append(lits, lineLit{st, leaves})
-		})
+	for _, g := range plainWithAnons(f) {
+		for _, vi := range virtualInstrs(g) {
+			vi := vi
+			vi.run(func() {
+				st, ok := vi.in.(*ssa.Store)
+				if !ok {
+					return
+				}
+				fa, ok := st.Addr.(*ssa.FieldAddr)
+				if !ok || typeNameOf(fa.X.Type()) != "Line" || fieldName(fa) != "Text" {
+					return
+				}
+				var leaves []ssa.Value
+				catLeaves(st.Val, &leaves, 0)
+				lits = append(lits, lineLit{st, leaves, vi.chain})
+			})
+		}
 	}
 	var sawHead, sawSummary, sawEntry, sawCont, sawFirst bool
 	for _, l := range lits {
-		only, _ := onlyLoopGuards(l.st.Block())
-		// classify by leaves
-		var parts []string
-		for _, v := range l.leaves {
-			switch {
-			case isInd(v):
-				parts = append(parts, "IND")
-			default:
-				if s, isS := constString(v); isS {
-					parts = append(parts, fmt.Sprintf("%q", s))
-					continue
+		l := l
+		vcall{chain: l.chain}.run(func() {
+			only, _ := onlyLoopGuards(l.st.Block())
+			// classify by leaves
+			var parts []string
+			for _, v := range l.leaves {
+				switch {
+				case isInd(v):
+					parts = append(parts, "IND")
+				default:
+					if s, isS := constString(v); isS {
+						parts = append(parts, fmt.Sprintf("%q", s))
+						continue
+					}
+					if n, _ := serCall(v); n != "" {
+						parts = append(parts, "s."+n)
+						continue
+					}
+					if c, _ := callOf(v); c != nil && staticCallee(c) != nil && fnBase(staticCallee(c)) == "Unbox" {
+						parts = append(parts, "ENTRY")
+						continue
+					}
+					if _, fld := fieldLoad(v); fld == "Text" {
+						parts = append(parts, "PREV")
+						continue
+					}
+					if _, isPhi := strip(v).(*ssa.Phi); isPhi {
+						parts = append(parts, "HEADLINE")
+						continue
+					}
+					// a value with several ways to come about (a helper with several returns)
+					if len(valueRows(v, 0, map[ssa.Value]bool{})) > 1 {
+						parts = append(parts, "HEADLINE")
+						continue
+					}
+					parts = append(parts, "?")
 				}
-				if n, _ := serCall(v); n != "" {
-					parts = append(parts, "s."+n)
-					continue
-				}
-				if c, _ := callOf(v); c != nil && staticCallee(c) != nil && fnBase(staticCallee(c)) == "Unbox" {
-					parts = append(parts, "ENTRY")
-					continue
-				}
-				if _, fld := fieldLoad(v); fld == "Text" {
-					parts = append(parts, "PREV")
-					continue
-				}
-				if _, isPhi := strip(v).(*ssa.Phi); isPhi {
-					parts = append(parts, "HEADLINE")
-					continue
-				}
-				parts = append(parts, "?")
 			}
-		}
-		sig := strings.Join(parts, "+")
-		switch {
-		case sig == "HEADLINE":
-			sawHead = true
-			// the phi: s.Date(r.Date()) and s.Date(...) + " (" + s.ShouldTotal(r.ShouldTotal()) + ")"
-			ph := strip(l.leaves[0]).(*ssa.Phi)
-			okH := len(ph.Edges) == 2
-			var plain, with bool
-			for i, e := range ph.Edges {
-				var lv []ssa.Value
-				catLeaves(e, &lv, 0)
-				n0, a0 := serCall(lv[0])
-				if n0 != "Date" || len(a0) != 1 {
-					okH = false
-					continue
-				}
-				if nn, rr, _, _ := methodCall(a0[0]); nn != "Date" || strip(rr) != ssa.Value(rec) {
-					okH = false
-				}
-				if len(lv) == 1 {
-					plain = true
-					continue
-				}
-				if len(lv) == 4 {
-					s1, _ := constString(lv[1])
-					n2, a2 := serCall(lv[2])
-					s3, _ := constString(lv[3])
-					if s1 == " (" && s3 == ")" && n2 == "ShouldTotal" && len(a2) == 1 {
-						if nn, rr, _, _ := methodCall(a2[0]); nn == "ShouldTotal" && strip(rr) == ssa.Value(rec) {
-							// guard: r.ShouldTotal().InMinutes() != 0
-							pb := ph.Block().Preds[i]
-							for _, g := range append(guardsOf(pb), edgeGuard(pb, ph.Block())...) {
-								if bo, isB := g.Cond.(*ssa.BinOp); isB {
-									k, isK := constInt(bo.Y)
-									n3, r3, _, _ := methodCall(bo.X)
-									n4, _, _, _ := methodCall(r3)
-									if isK && k == 0 && n3 == "InMinutes" && n4 == "ShouldTotal" && (bo.Op == token.NEQ) == g.Pol {
-										with = true
+			sig := strings.Join(parts, "+")
+			switch {
+			case sig == "HEADLINE":
+				sawHead = true
+				// the ways: s.Date(r.Date()) and s.Date(...) + " (" + s.ShouldTotal(r.ShouldTotal()) + ")"
+				rowsH := valueRows(l.leaves[0], 0, map[ssa.Value]bool{})
+				okH := len(rowsH) == 2
+				var plain, with bool
+				for _, rw := range rowsH {
+					var lv []ssa.Value
+					catLeaves(rw.val, &lv, 0)
+					if len(lv) == 0 {
+						okH = false
+						continue
+					}
+					n0, a0 := serCall(lv[0])
+					if n0 != "Date" || len(a0) != 1 {
+						okH = false
+						continue
+					}
+					if nn, rr, _, _ := methodCall(a0[0]); nn != "Date" || strip(rr) != ssa.Value(rec) {
+						okH = false
+					}
+					if len(lv) == 1 {
+						plain = true
+						continue
+					}
+					if len(lv) == 4 {
+						s1, _ := constString(lv[1])
+						n2, a2 := serCall(lv[2])
+						s3, _ := constString(lv[3])
+						if s1 == " (" && s3 == ")" && n2 == "ShouldTotal" && len(a2) == 1 {
+							if nn, rr, _, _ := methodCall(a2[0]); nn == "ShouldTotal" && strip(rr) == ssa.Value(rec) {
+								// guard: r.ShouldTotal().InMinutes() != 0
+								for _, g := range rw.guards {
+									if bo, isB := normCmp(g.Cond); isB {
+										k, isK := constInt(bo.Y)
+										n3, r3, _, _ := methodCall(bo.X)
+										n4, _, _, _ := methodCall(r3)
+										if isK && k == 0 && n3 == "InMinutes" && n4 == "ShouldTotal" && (bo.Op == token.NEQ) == g.Pol && (bo.Op == token.NEQ || bo.Op == token.EQL) {
+											with = true
+										}
 									}
 								}
 							}
 						}
 					}
 				}
-			}
-			r.check(okH && plain && with && len(guardsOf(l.st.Block())) == 0, rule, "headline", p.instrPos(l.st), "headline = date [ (should-total) iff it is non-zero ]", "the headline is not s.Date(r.Date()) with \" (\"+s.ShouldTotal(r.ShouldTotal())+\")\" exactly when the should-total is non-zero")
-		case sig == "s.Summary":
-			_, a := serCall(l.leaves[0])
-			els, ok := sliceLitElems(a[0])
-			okS := ok && len(els) == 1 && only
-			if okS {
-				coll := rangeElemOf(els[0])
-				n, rr, _, _ := methodCall(coll)
-				n2, r2, _, _ := methodCall(rr)
-				okS = coll != nil && n == "Lines" && n2 == "Summary" && strip(r2) == ssa.Value(rec)
-			}
-			if okS {
-				sawSummary = true
-			}
-			r.check(okS, rule, "summary-lines", p.instrPos(l.st), "every record summary line is emitted as its own line", "not every record summary line is emitted (unindented, in order)")
-		case sig == "IND+ENTRY":
-			sawEntry = only
-			r.check(only, rule, "entries", p.instrPos(l.st), "every entry is emitted on a singly indented line", "not every entry is emitted")
-		case sig == "IND+IND+s.Summary":
-			// i >= 1
-			lo, hi := indexBounds(guardsOf(l.st.Block()))
-			okC := lo == 1 && hi == -1
-			sawCont = okC
-			r.check(okC, rule, "entry-summary:continuation", p.instrPos(l.st), "every entry-summary line after the first is emitted on its own doubly indented line", "continuation lines of an entry summary are not all emitted doubly indented")
-		case strings.HasPrefix(sig, "PREV+\" \"+s.Summary"):
-			// first line: i == 0 && l != ""
-			var nonEmpty bool
-			_, hi := indexBounds(guardsOf(l.st.Block()))
-			zero := hi == 0
-			for _, g := range guardsOf(l.st.Block()) {
-				if x, isF := nonEmptyStr(g); isF && x != nil {
-					nonEmpty = true
+				r.check(okH && plain && with && len(guardsOf(l.st.Block())) == 0, rule, "headline", p.instrPos(l.st), "headline = date [ (should-total) iff it is non-zero ]", "the headline is not s.Date(r.Date()) with \" (\"+s.ShouldTotal(r.ShouldTotal())+\")\" exactly when the should-total is non-zero")
+			case sig == "s.Summary":
+				_, a := serCall(l.leaves[0])
+				els, ok := sliceLitElems(a[0])
+				okS := ok && len(els) == 1 && only
+				if okS {
+					coll := rangeElemOf(els[0])
+					n, rr, _, _ := methodCall(coll)
+					n2, r2, _, _ := methodCall(rr)
+					okS = coll != nil && n == "Lines" && n2 == "Summary" && strip(r2) == ssa.Value(rec)
 				}
+				if okS {
+					sawSummary = true
+				}
+				r.check(okS, rule, "summary-lines", p.instrPos(l.st), "every record summary line is emitted as its own line", "not every record summary line is emitted (unindented, in order)")
+			case sig == "IND+ENTRY":
+				sawEntry = only
+				r.check(only, rule, "entries", p.instrPos(l.st), "every entry is emitted on a singly indented line", "not every entry is emitted")
+			case sig == "IND+IND+s.Summary":
+				// i >= 1
+				lo, hi := indexBounds(guardsOf(l.st.Block()))
+				okC := lo == 1 && hi == -1
+				sawCont = okC
+				r.check(okC, rule, "entry-summary:continuation", p.instrPos(l.st), "every entry-summary line after the first is emitted on its own doubly indented line", "continuation lines of an entry summary are not all emitted doubly indented")
+			case strings.HasPrefix(sig, "PREV+\" \"+s.Summary"):
+				// first line: i == 0 && l != ""
+				var nonEmpty bool
+				_, hi := indexBounds(guardsOf(l.st.Block()))
+				zero := hi == 0
+				for _, g := range guardsOf(l.st.Block()) {
+					if x, isF := nonEmptyStr(g); isF && x != nil {
+						nonEmpty = true
+					}
+				}
+				sawFirst = zero && nonEmpty
+				r.check(zero && nonEmpty, rule, "entry-summary:first", p.instrPos(l.st), "a non-empty first summary line is appended to the entry line after one blank", "the first entry-summary line is not appended to the entry line exactly when it is non-empty")
+			default:
+				r.bad(rule, "line:"+sig, p.instrPos(l.st), "a line of the canonical output is built in an unexpected way: %s", sig)
 			}
-			sawFirst = zero && nonEmpty
-			r.check(zero && nonEmpty, rule, "entry-summary:first", p.instrPos(l.st), "a non-empty first summary line is appended to the entry line after one blank", "the first entry-summary line is not appended to the entry line exactly when it is non-empty")
-		default:
-			r.bad(rule, "line:"+sig, p.instrPos(l.st), "a line of the canonical output is built in an unexpected way: %s", sig)
-		}
+		})
 	}
 	r.check(sawHead && sawSummary && sawEntry && sawCont && sawFirst, rule, "sections", p.pos(f.Pos()), "headline, summary lines, entries, first and continuation summary lines are all emitted", fmt.Sprintf("a section of the record is not emitted (headline=%v summary=%v entries=%v continuation=%v first=%v)", sawHead, sawSummary, sawEntry, sawCont, sawFirst))
 	// P09-arms
@@ -405,6 +422,20 @@ func catLeaves(v ssa.Value, out *[]ssa.Value, depth int) {
 		catLeaves(b.X, out, depth+1)
 		catLeaves(b.Y, out, depth+1)
 		return
+	}
+	// strings.Join([]string{a, b, c}, sep) is a + sep + b + sep + c
+	if c, ok := v.(*ssa.Call); ok && depth < 12 {
+		if g := staticCallee(c); g != nil && g.String() == "strings.Join" && len(c.Call.Args) == 2 {
+			if elems, isLit := sliceLitElems(c.Call.Args[0]); isLit && len(elems) > 0 {
+				for i, e := range elems {
+					if i > 0 {
+						catLeaves(c.Call.Args[1], out, depth+1)
+					}
+					catLeaves(e, out, depth+1)
+				}
+				return
+			}
+		}
 	}
 	*out = append(*out, v)
 }
